@@ -52,6 +52,16 @@ func (v *Value) IsBool() bool {
 	return v.getResolvedValue().Kind() == reflect.Bool
 }
 
+// isStringer checks whether String() is delegated to the underlying value's own
+// String method (fmt.Stringer), whose result is arbitrary text like a string's.
+func (v *Value) isStringer() bool {
+	if v.IsNil() {
+		return false
+	}
+	_, ok := v.Interface().(fmt.Stringer)
+	return ok
+}
+
 // IsFloat checks whether the underlying value is a float
 func (v *Value) IsFloat() bool {
 	return v.getResolvedValue().Kind() == reflect.Float32 ||
